@@ -59,6 +59,9 @@ pub struct RunInfo {
     pub g3_checked: usize,
     pub cycle_refusals: usize,
     pub sem_diag_kinds: BTreeSet<String>,
+    /// pristine files (as written by the generator) that nevertheless have lexical diagnostics:
+    /// expected to stay 0; a non-zero count is a defect of the generator, not a violation
+    pub pristine_with_lexical_errors: usize,
     pub panic_msg: Option<String>,
     /// signatures of failing soft oracles of properties other than the one under check
     pub other_failures: Vec<String>,
@@ -314,6 +317,12 @@ pub fn judge(w: &World, run: &Run, focus: Option<&str>) -> (Verdict, RunInfo) {
         let mut h = 0xcbf2_9ce4_8422_2325u64;
         tree_shape(&m, 0, &mut h);
         info.tree_shape = h;
+    }
+
+    for i in 0..m.insts.len() {
+        if m.meta_of(i).is_some() && m.insts[i].facts.as_ref().is_some_and(|f| !f.lex.is_empty()) {
+            info.pristine_with_lexical_errors += 1;
+        }
     }
 
     // ------------------------------------------------------------------ S3 on the delivered texts
